@@ -454,6 +454,21 @@ func (x *runner) probeXCrypto(g *gen) {
 	for _, s := range append([][]byte{}, streams...) {
 		streams = append(streams, append(append([]byte{}, s...), frame([]byte{yubiagent.AgentMessageRequestIdentities})...))
 	}
+	// the decoder of x/crypto's server alone, on add-identity requests whose constraint list is cut, extended or garbled:
+	// which of them make it panic is what AgentStd.dec_req says
+	x.stdDec(minimal[4:])
+	for _, b := range g.stdReq {
+		if b[0] != yubiagent.AgentMessageAddIDConstrained && b[0] != yubiagent.AgentMessageAddIdentity {
+			continue
+		}
+		for cut := 1; cut <= 8 && cut < len(b); cut++ {
+			x.stdDec(b[:len(b)-cut])
+		}
+		for _, tail := range [][]byte{{1}, {1, 0}, {1, 0, 0}, {1, 0, 0, 0}, {1, 0, 0, 0, 9}, {2}, {2, 2}, {2, 1}, {2, 1, 0, 0, 0, 5, 1}, {3}, {255}, {4},
+			{255, 0, 0, 0, 1, 'x', 0, 0, 0, 0}, {255, 0, 0, 0, 1, 'x', 0, 0, 0, 0, 1}, {3, 0, 0, 0, 0, 0, 0, 0, 2, 7, 7, 1, 0, 0}, {255, 0, 0, 0, 9, 'x'}} {
+			x.stdDec(append(append([]byte{}, b...), tail...))
+		}
+	}
 	for _, s := range streams {
 		o := serveStream(x.fake, s, 20*time.Second, false)
 		if o.panicked || o.hung {
@@ -764,10 +779,41 @@ type runner struct {
 	c    *core.Ctx
 	fake *fakeAgent
 	m    *material
+	// standard-class request bodies already handed to x/crypto's server alone (nil: not collecting)
+	stdSeen map[string]bool
+}
+
+// stdDec hands one standard-class request body to x/crypto's agent server alone and emits how it fared beside the
+// body (C12Check.CStdDec): the model of that server's decoder (AgentStd.dec_req) says on which bodies it panics.
+func (x *runner) stdDec(f []byte) {
+	if len(f) == 0 || len(f) > 4096 || x.stdSeen == nil {
+		return
+	}
+	switch f[0] {
+	case 11, 13, 17, 18, 19, 22, 23, 25:
+	default:
+		return
+	}
+	if x.stdSeen[string(f)] || len(x.stdSeen) >= x.c.N(600, 6000) {
+		return
+	}
+	x.stdSeen[string(f)] = true
+	conn := &memConn{in: bytes.NewReader(frame(f))}
+	p, msg := core.Guard(func() { _ = agent.ServeAgent(&fakeAgent{m: x.m}, conn) })
+	if p && !strings.Contains(msg, "slice bounds out of range") {
+		// key material on which x/crypto's key constructors panic (an RSA prime equal to 1): outside the model
+		x.c.Stat("standard requests on which x/crypto panics outside its constraint parser (not compared)")
+		return
+	}
+	x.c.Case("standard-request-decoder", core.GApp("CStdDec", gHex(f), core.GBool(p)),
+		map[string]interface{}{"request_hex": short(f), "xcrypto_server_panics": p})
 }
 
 func (x *runner) emit(class string, exact bool, ag yubiagent.YubiAgent, stream []byte, measure bool) observation {
 	c := x.c
+	for _, f := range splitFrames(stream) {
+		x.stdDec(f)
+	}
 	for _, f := range splitFrames(stream) {
 		if xcryptoConstraintPanic(x.m, f) {
 			// x/crypto's own server panics on this frame; ysshra's ServeAgent must end the connection with an
@@ -830,7 +876,7 @@ func runC12(c *core.Ctx) {
 		return
 	}
 	fake := &fakeAgent{m: m}
-	x := &runner{c: c, fake: fake, m: m}
+	x := &runner{c: c, fake: fake, m: m, stdSeen: map[string]bool{}}
 	g := newGen(r, m)
 
 	// 0. regression inputs of the repaired defects (known_findings.txt, fixed: property=C12) run first
